@@ -49,6 +49,15 @@ def gen(rng, tier):
     if rng.random() < 0.06:
         # simulate(error_tol=...) with a value that is not a positive tolerance (the argument is documented as a numerical guard)
         spec["cfg"]["error_tol"] = rng.choice([0.0, 0.0, -1e-3, 1e-14])
+    tms_ = spec["model"].get("teams", [])
+    if len(tms_) >= 2 and rng.random() < 0.1:
+        # teams built empty whose workers join through add_worker; some of them still name the team they came from
+        for ti_, mj_ in enumerate(tms_):
+            if rng.random() < 0.7 and not mj_.get("ctor_targets"):
+                mj_["add_worker"] = True
+                for wj_ in mj_["workers"]:
+                    if rng.random() < 0.6:
+                        wj_["stale_team_id"] = rng.choice([x_["id"] for j_, x_ in enumerate(tms_) if j_ != ti_])
     return spec
 
 
